@@ -192,4 +192,258 @@ Proof.
   rewrite (stream_roundtrip _ ctx pw wcuts); try assumption; [rewrite Hc; reflexivity|].
   unfold flat_sink. apply concat_filter_ne.
 Qed.
+
+(* ---- independence of the caller's slicing ------------------------------------------------------------ *)
+(* the compressed byte string depends on what was written, not on how the writes were sliced *)
+Hypothesis compress_det : forall c lvl ws ws', concat ws = concat ws' ->
+  concat (compress c lvl ws) = concat (compress c lvl ws').
+
+Lemma zwrite_concat c lvl ws ws' : concat ws = concat ws' -> concat (zwrite c lvl ws) = concat (zwrite c lvl ws').
+Proof. intros H. destruct c; cbn [Pipeline.zwrite]; try apply compress_det; exact H. Qed.
+
+Lemma cwrite_concat cfg ctx ws ws' : key_iv_ok (c_key ctx) (c_iv ctx) = true -> concat ws = concat ws' ->
+  concat (cwrite cfg ctx ws) = concat (cwrite cfg ctx ws').
+Proof.
+  intros Hok H. unfold Pipeline.cwrite.
+  assert (Hnew : cbcw_new (c_key ctx) (c_iv ctx) = Ok {| w_key := c_key ctx; w_prev := c_iv ctx; w_buf := [] |})
+    by (unfold cbcw_new; rewrite Hok; reflexivity).
+  destruct (g_enc cfg); [exact H| |]; destruct (g_mode cfg).
+  - destruct (cbcw_writes (E EAes) _ ws) as [s1 c1] eqn:E1. destruct (cbcw_writes (E EAes) _ ws') as [s2 c2] eqn:E2.
+    destruct (cbcw_spec (E EAes) _ _ _ _ _ _ Hnew E1) as (A1 & _). destruct (cbcw_spec (E EAes) _ _ _ _ _ _ Hnew E2) as (A2 & _).
+    rewrite !concat_app, A1, A2, H. reflexivity.
+  - destruct (ctrw_writes (E EAes) _ ws) as [s1 c1] eqn:E1. destruct (ctrw_writes (E EAes) _ ws') as [s2 c2] eqn:E2.
+    destruct (ctrw_writes_spec _ _ _ _ _ E1) as (A1 & _). destruct (ctrw_writes_spec _ _ _ _ _ E2) as (A2 & _).
+    rewrite A1, A2, H. reflexivity.
+  - destruct (cbcw_writes (E ECamellia) _ ws) as [s1 c1] eqn:E1. destruct (cbcw_writes (E ECamellia) _ ws') as [s2 c2] eqn:E2.
+    destruct (cbcw_spec (E ECamellia) _ _ _ _ _ _ Hnew E1) as (A1 & _). destruct (cbcw_spec (E ECamellia) _ _ _ _ _ _ Hnew E2) as (A2 & _).
+    rewrite !concat_app, A1, A2, H. reflexivity.
+  - destruct (ctrw_writes (E ECamellia) _ ws) as [s1 c1] eqn:E1. destruct (ctrw_writes (E ECamellia) _ ws') as [s2 c2] eqn:E2.
+    destruct (ctrw_writes_spec _ _ _ _ _ E1) as (A1 & _). destruct (ctrw_writes_spec _ _ _ _ _ E2) as (A2 & _).
+    rewrite A1, A2, H. reflexivity.
+Qed.
+
+Lemma data_pieces_concat cfg ctx w1 w2 : key_iv_ok (c_key ctx) (c_iv ctx) = true -> concat w1 = concat w2 ->
+  concat (data_pieces cfg ctx w1) = concat (data_pieces cfg ctx w2).
+Proof. intros Hok H. unfold Pipeline.data_pieces. apply cwrite_concat; [exact Hok|]. apply zwrite_concat. exact H. Qed.
+
+Lemma build_data_concat cfg ctx w1 w2 : key_iv_ok (c_key ctx) (c_iv ctx) = true -> concat w1 = concat w2 ->
+  concat (build_data cfg ctx w1) = concat (build_data cfg ctx w2).
+Proof.
+  intros Hok H. unfold Pipeline.build_data, flat_sink. rewrite !concat_app, !concat_filter_ne.
+  rewrite (data_pieces_concat cfg ctx w1 w2) by assumption. reflexivity.
+Qed.
+
+Lemma sum_len_concat (l : list bytes) : fold_left N.add (map len l) 0 = len (concat l).
+Proof.
+  change (sum_len l = len (concat l)). induction l as [|d l IH]; [reflexivity|].
+  rewrite sum_len_cons, IH. cbn [concat]. rewrite len_app. reflexivity.
+Qed.
+
+(* two slicings of the same content, two sequences of buffer sizes: the same decoded bytes, and the built
+   entries are equal except for where n_data is cut *)
+Theorem entry_roundtrip_indep_of_slicing cfg ctx pw sp w1 w2 r1 r2 :
+  wf_ctx ctx pw -> concat w1 = sp_content sp -> concat w2 = sp_content sp ->
+  Forall (fun n => 0 < n) r1 -> Forall (fun n => 0 < n) r2 ->
+  covers (eff_cfg cfg (sp_kind sp)) w1 r1 -> covers (eff_cfg cfg (sp_kind sp)) w2 r2 ->
+  let e1 := build_normal cfg ctx sp w1 in let e2 := build_normal cfg ctx sp w2 in
+  decode_normal e1 pw r1 = decode_normal e2 pw r2 /\
+  n_hdr e1 = n_hdr e2 /\ n_phsf e1 = n_phsf e2 /\ n_extra e1 = n_extra e2 /\ n_meta e1 = n_meta e2 /\
+  n_xattrs e1 = n_xattrs e2 /\ concat (n_data e1) = concat (n_data e2).
+Proof.
+  intros Hctx H1 H2 P1 P2 C1 C2 e1 e2. subst e1 e2.
+  rewrite !entry_roundtrip by assumption.
+  assert (Hd : concat (n_data (build_normal cfg ctx sp w1)) = concat (n_data (build_normal cfg ctx sp w2))).
+  { unfold Pipeline.build_normal. cbv zeta. cbn [n_data]. apply build_data_concat; [apply Hctx|congruence]. }
+  repeat split; try exact Hd.
+  unfold Pipeline.build_normal in *. cbv zeta in *. cbn [n_meta n_data] in *.
+  rewrite !sum_len_concat, Hd, H1, H2. reflexivity.
+Qed.
+
+(* ================================================================================================= *)
+(* 2. metadata                                                                                         *)
+(* ================================================================================================= *)
+Definition wf_spec (sp : spec) : Prop :=
+  utf8_valid (sp_name sp) = true /\ sanitize_name (sp_name sp) = sp_name sp /\
+  len (sp_content sp) < 2 ^ 128 /\
+  opt_all (fun t => t < 2 ^ 64) (sp_ctime sp) /\ opt_all (fun t => t < 2 ^ 64) (sp_mtime sp) /\
+  opt_all (fun t => t < 2 ^ 64) (sp_atime sp) /\
+  opt_all wf_perm (sp_perm sp) /\ Forall wf_xattr (sp_xattrs sp) /\
+  Forall (fun c => is_known c = false) (sp_extra sp).
+
+Lemma build_wf_normal cfg ctx pw sp wcuts : wf_spec sp -> wf_ctx ctx pw -> concat wcuts = sp_content sp ->
+  wf_normal (build_normal cfg ctx sp wcuts).
+Proof.
+  intros (S1 & S2 & S3 & S4 & S5 & S6 & S7 & S8 & S9) (_ & _ & Hu) Hc.
+  unfold wf_normal, wf_fhed, Pipeline.build_normal. cbv zeta.
+  cbn [n_hdr n_phsf n_extra n_data n_meta n_xattrs f_major f_minor f_name m_raw_size m_compressed m_ctime m_mtime m_atime m_perm].
+  repeat (split; [first [assumption | reflexivity | lia | idtac]|]); try assumption.
+  - unfold phsf_part. destruct (encrypted _); cbn [opt_all]; [exact Hu|exact I].
+  - destruct (sp_kind sp); cbn [opt_all]; try exact I. rewrite Hc. exact S3.
+Qed.
+
+Lemma filter_id {A} (f : A -> bool) l : Forall (fun x => f x = true) l -> filter f l = l.
+Proof. induction 1 as [|x l Hx _ IH]; [reflexivity|]. cbn [filter]. rewrite Hx, IH. reflexivity. Qed.
+
+Lemma filter_ne_all ps : Forall (fun x => ne x = true) (filter ne ps).
+Proof. apply Forall_forall. intros x Hx. apply filter_In in Hx. apply Hx. Qed.
+
+Lemma build_data_nonempty cfg ctx pw wcuts : wf_ctx ctx pw ->
+  Forall (fun d => nonempty d = true) (build_data cfg ctx wcuts).
+Proof.
+  intros Hctx. unfold Pipeline.build_data, iv_part, flat_sink. apply Forall_app. split; [|apply filter_ne_all].
+  destruct (encrypted cfg); constructor; [|constructor].
+  pose proof (iv_len _ _ Hctx) as L. destruct (c_iv ctx); [discriminate L|reflexivity].
+Qed.
+
+(* a built entry holds no empty payload: re-serialising it loses nothing *)
+Lemma normalize_build cfg ctx pw sp wcuts : wf_ctx ctx pw ->
+  normalize (build_normal cfg ctx sp wcuts) = build_normal cfg ctx sp wcuts.
+Proof.
+  intros Hctx. unfold normalize, Pipeline.build_normal. cbv zeta. cbn [n_hdr n_phsf n_extra n_data n_meta n_xattrs].
+  rewrite (filter_id nonempty) by (eapply build_data_nonempty; exact Hctx). reflexivity.
+Qed.
+
+Theorem metadata_roundtrip cfg ctx pw sp wcuts : wf_spec sp -> wf_ctx ctx pw -> concat wcuts = sp_content sp ->
+  let e := build_normal cfg ctx sp wcuts in
+  parse_normal (ser_normal e) = Ok (normalize e) /\ normalize e = e /\
+  f_name (n_hdr e) = sp_name sp /\ f_kind (n_hdr e) = sp_kind sp /\
+  m_ctime (n_meta e) = sp_ctime sp /\ m_mtime (n_meta e) = sp_mtime sp /\ m_atime (n_meta e) = sp_atime sp /\
+  m_perm (n_meta e) = sp_perm sp /\ n_xattrs e = sp_xattrs sp /\ n_extra e = sp_extra sp /\
+  m_raw_size (n_meta e) = (match sp_kind sp with KFile => Some (len (sp_content sp)) | _ => None end) /\
+  m_compressed (n_meta e) = fold_left N.add (map len (n_data e)) 0.
+Proof.
+  intros Hs Hctx Hc e. split; [apply parse_ser_wf, (build_wf_normal cfg ctx pw); assumption|].
+  split; [apply (normalize_build cfg ctx pw); assumption|].
+  subst e. unfold Pipeline.build_normal. cbv zeta. cbn. rewrite Hc. repeat split.
+Qed.
+
+(* ================================================================================================= *)
+(* 3. whole archives                                                                                   *)
+(* ================================================================================================= *)
+(* every chunk of the serialised entry fits the 32-bit length field, and the caller's private chunks are
+   neither entry terminators nor archive markers *)
+Definition fits (e : normal_entry) : Prop :=
+  6 + len (f_name (n_hdr e)) < 2 ^ 32 /\ opt_all (fun s => len s < 2 ^ 32) (n_phsf e) /\
+  Forall wf_chunk (n_extra e) /\ Forall (fun c => is_term c = false) (n_extra e) /\
+  Forall (fun d => len d < 2 ^ 32) (n_data e) /\
+  Forall (fun x => 8 + len (x_name x) + len (x_value x) < 2 ^ 32) (n_xattrs e).
+
+Definition okc (c : chunk) : Prop := wf_chunk c /\ is_term c = false.
+
+Lemma okc_opt {A} t (f : A -> bytes) o : length t = 4%nat -> is_term (mk t []) = false ->
+  opt_all (fun v => len (f v) < 2 ^ 32) o -> Forall okc (opt_chunk t f o).
+Proof.
+  intros Lt Ht H. destruct o as [v|]; cbn [opt_chunk opt_all] in *; constructor; [|constructor].
+  split; [split; [exact Lt|exact H]|exact Ht].
+Qed.
+
+Lemma perm_to_bytes_len p : wf_perm p -> len (perm_to_bytes p) < 2 ^ 32.
+Proof.
+  intros (_ & _ & _ & H4 & H5 & _). unfold perm_to_bytes, be64, be16.
+  rewrite !len_app. unfold len in *. rewrite !be_length. cbn [length]. lia.
+Qed.
+
+Lemma ser_normal_body e : wf_normal e -> fits e ->
+  exists body, ser_normal e = body ++ [mk FEND []] /\ Forall okc body.
+Proof.
+  intros (W1 & W2 & W3 & W4 & W5 & W6 & W7 & W8 & W9 & W10 & W11 & W12) (F1 & F2 & F3 & F4 & F5 & F6).
+  unfold ser_normal. cbv zeta.
+  eexists. split; [rewrite !app_assoc; reflexivity|].
+  repeat (apply Forall_app; split).
+  - constructor; [|constructor]. split; [split; [reflexivity|]|reflexivity].
+    unfold fhed_to_bytes. cbn [mk cdata]. rewrite len_app. unfold len at 1. cbn [length]. exact F1.
+  - apply Forall_forall. intros c Hc. rewrite Forall_forall in F3, F4. split; auto.
+  - apply okc_opt; [reflexivity|reflexivity|].
+    destruct (m_raw_size (n_meta e)); cbn [opt_all]; [|exact I].
+    pose proof (fsiz_to_bytes_length n). unfold len. lia.
+  - apply okc_opt; [reflexivity|reflexivity|exact F2].
+  - apply Forall_forall. intros c Hc. apply in_concat in Hc. destruct Hc as (l & Hl & Hc).
+    apply in_map_iff in Hl. destruct Hl as (d & <- & Hd). rewrite Forall_forall in F5. specialize (F5 d Hd).
+    destruct d as [|b d]; cbn [data_chunks] in Hc; [contradiction|]. destruct Hc as [<-|[]].
+    split; [split; [reflexivity|exact F5]|reflexivity].
+  - apply okc_opt; [reflexivity|reflexivity|]. destruct (m_ctime (n_meta e)); cbn [opt_all]; [|exact I].
+    unfold time_to_bytes, be64, len. rewrite be_length. lia.
+  - apply okc_opt; [reflexivity|reflexivity|]. destruct (m_mtime (n_meta e)); cbn [opt_all]; [|exact I].
+    unfold time_to_bytes, be64, len. rewrite be_length. lia.
+  - apply okc_opt; [reflexivity|reflexivity|]. destruct (m_atime (n_meta e)); cbn [opt_all]; [|exact I].
+    unfold time_to_bytes, be64, len. rewrite be_length. lia.
+  - apply okc_opt; [reflexivity|reflexivity|]. destruct (m_perm (n_meta e)); cbn [opt_all] in *; [|exact I].
+    apply perm_to_bytes_len. exact W11.
+  - apply Forall_forall. intros c Hc. apply in_map_iff in Hc. destruct Hc as (x & <- & Hx).
+    rewrite Forall_forall in F6. specialize (F6 x Hx).
+    split; [split; [reflexivity|]|reflexivity]. cbn [mk cdata]. unfold xattr_to_bytes, be32.
+    rewrite !len_app. unfold len in *. rewrite !be_length. lia.
+Qed.
+
+Lemma ser_normal_wf_entry e : wf_normal e -> fits e -> wf_entry (ser_normal e).
+Proof.
+  intros Hw Hf. destruct (ser_normal_body e Hw Hf) as (body & -> & Hb).
+  exists body, (mk FEND []). split; [reflexivity|]. split; [reflexivity|]. split.
+  - apply Forall_app. split; [eapply Forall_impl; [|exact Hb]; intros c [H _]; exact H|].
+    constructor; [|constructor]. split; [reflexivity|vm_compute; reflexivity].
+  - eapply Forall_impl; [|exact Hb]. intros c [_ H]. exact H.
+Qed.
+
+Lemma parse_entry_ser_normal e : wf_normal e -> parse_entry (ser_normal e) = Ok (RNormal (normalize e)).
+Proof.
+  intros Hw. destruct (ser_normal_head e) as [tl Etl]. unfold parse_entry. rewrite Etl. tysimp. rewrite <- Etl.
+  rewrite (parse_ser_wf e Hw). reflexivity.
+Qed.
+
+Lemma parse_all_ser es : Forall wf_normal es ->
+  parse_all (map ser_normal es) = (map (fun e => RNormal (normalize e)) es, FinOk).
+Proof.
+  induction 1 as [|e es He _ IH]; [reflexivity|]. cbn [map parse_all].
+  rewrite parse_entry_ser_normal by exact He. rewrite IH. reflexivity.
+Qed.
+
+(* any well-formed entries: written with add_entry, read back with entries() *)
+Theorem archive_roundtrip_gen es : Forall wf_normal es -> Forall fits es ->
+  read_archive (write_archive es) = Ok (map (fun e => RNormal (normalize e)) es).
+Proof.
+  intros Hw Hf. unfold read_archive, write_archive, entries.
+  rewrite read_written.
+  - cbn [bind]. rewrite parse_all_ser by exact Hw. reflexivity.
+  - lia.
+  - apply Forall_forall. intros cs Hcs. apply in_map_iff in Hcs. destruct Hcs as (e & <- & He).
+    rewrite Forall_forall in Hw, Hf. apply ser_normal_wf_entry; auto.
+Qed.
+
+(* a job: how one entry is produced *)
+Record job := { j_cfg : config; j_ctx : cctx; j_spec : spec; j_wcuts : list bytes }.
+Definition build_job (j : job) : normal_entry := build_normal (j_cfg j) (j_ctx j) (j_spec j) (j_wcuts j).
+Definition wf_job (pw : bytes) (j : job) : Prop :=
+  wf_spec (j_spec j) /\ wf_ctx (j_ctx j) pw /\ concat (j_wcuts j) = sp_content (j_spec j) /\ fits (build_job j).
+
+Theorem archive_roundtrip pw jobs : Forall (wf_job pw) jobs ->
+  read_archive (write_archive (map build_job jobs)) = Ok (map (fun j => RNormal (build_job j)) jobs).
+Proof.
+  intros H. rewrite archive_roundtrip_gen.
+  - f_equal. rewrite map_map. apply map_ext_in. intros j Hj. rewrite Forall_forall in H.
+    destruct (H j Hj) as (_ & Hc & _). unfold build_job. rewrite (normalize_build _ _ pw) by exact Hc. reflexivity.
+  - apply Forall_forall. intros e He. apply in_map_iff in He. destruct He as (j & <- & Hj).
+    rewrite Forall_forall in H. destruct (H j Hj) as (Hs & Hc & Hw & _). apply (build_wf_normal _ _ pw); assumption.
+  - apply Forall_forall. intros e He. apply in_map_iff in He. destruct He as (j & <- & Hj).
+    rewrite Forall_forall in H. apply (H j Hj).
+Qed.
+
+(* C01 for normal entries: the archive reads back as the same sequence of entries, metadata equal, and
+   every entry decodes to the content its caller wrote, whatever the slicing and the buffer sizes *)
+Theorem roundtrip pw jobs : Forall (wf_job pw) jobs ->
+  read_archive (write_archive (map build_job jobs)) = Ok (map (fun j => RNormal (build_job j)) jobs) /\
+  forall j, In j jobs ->
+    (forall rbufs, Forall (fun n => 0 < n) rbufs ->
+       covers (eff_cfg (j_cfg j) (sp_kind (j_spec j))) (j_wcuts j) rbufs ->
+       decode_normal (build_job j) pw rbufs = Ok (sp_content (j_spec j))) /\
+    f_name (n_hdr (build_job j)) = sp_name (j_spec j) /\ f_kind (n_hdr (build_job j)) = sp_kind (j_spec j) /\
+    m_ctime (n_meta (build_job j)) = sp_ctime (j_spec j) /\ m_mtime (n_meta (build_job j)) = sp_mtime (j_spec j) /\
+    m_atime (n_meta (build_job j)) = sp_atime (j_spec j) /\ m_perm (n_meta (build_job j)) = sp_perm (j_spec j) /\
+    n_xattrs (build_job j) = sp_xattrs (j_spec j) /\ n_extra (build_job j) = sp_extra (j_spec j).
+Proof.
+  intros H. split; [apply (archive_roundtrip pw); exact H|]. intros j Hj. rewrite Forall_forall in H.
+  destruct (H j Hj) as (Hs & Hc & Hw & _). split.
+  - intros rbufs Hp Hcov. apply entry_roundtrip; assumption.
+  - repeat split.
+Qed.
+
 End PipelineFacts.
